@@ -76,6 +76,15 @@ def strategy(tier):
                 c["min_qp_allowed"], c["max_qp_allowed"] = 10, 40   # documented as ignored in CQP
         cnt = draw(gens.content(kinds=(0, 2, 2, 3, 5, 6)))
         case.update(gens.case_from(c, n, tp, cnt))
+        if mode in ("rc1", "rc2") and draw(st.integers(0, 2)) == 0:
+            # near-live pacing: the application sleeps ~10-20 ms between submissions, so the bits actually spent on earlier pictures reach rate
+            # control before later pictures are rate-controlled (a flooded encoder never exercises that feedback in a short clip)
+            case["pat"] = [draw(st.sampled_from(["SSpr", "SSSSpr", "Spr"]))]
+            if c["intra_period_length"] < 0:
+                c["intra_period_length"] = draw(st.sampled_from([7, 15]))
+            if "look_ahead_distance" not in c and mode == "rc1":
+                c["look_ahead_distance"] = draw(st.sampled_from([5, 16]))
+            case["frames"] = max(case["frames"], 3 * (c["intra_period_length"] + 1))
         return case
     return s()
 
